@@ -141,11 +141,13 @@ def run(ck):
             t = attempt(s, "twin/" + v.split("/")[1], "twin")
             twins += 1
             if t is not None and not dm.bitwise_equal(t, ref[k]):
-                ck.violation("M2:Determinism:RandomnessComesFromOwnSeed",
-                             {"mechanism": "M2", "module": "Determinism", "fit": describe(s, v),
-                              "detail": "GMMMachine(random_state=r) with the default initialisation differs from the "
-                                        "same machine given k_means_trainer=KMeansMachine(n_gaussians, random_state=r)",
-                              "observed": clip(ref[k]), "expected": clip(t)})
+                # C16 only demands that equal (data, configuration, random_state) give equal results whatever
+                # the history; it does not say HOW the seed is used.  A default initialisation that differs from
+                # KMeansMachine(n, random_state=r) but is deterministic satisfies the property: recorded, not alarmed.
+                note = ("observation (not a violation of C16): GMMMachine(random_state=r) with the default initialisation "
+                        "differs from the same machine given k_means_trainer=KMeansMachine(n_gaussians, random_state=r)")
+                if note not in ck.notes:
+                    ck.notes.append(note)
     ck.extra["references"] = len(ref)
     ck.extra["gmm_default_vs_explicit_trainer"] = twins
 
